@@ -49,6 +49,12 @@ pub const PROGRAMS: &[&str] = &[
     "2 * 3 plus 4",
     // a word that becomes an operator whose name is short in characters and long in bytes
     "1 \u{4e0d}\u{5305}\u{542b}\u{4e8e} 2",
+    // evaluations that fail half-way through an aggregate / a list / an argument list (whatever
+    // scratch state they used must not reach the next evaluation)
+    "sum(79228162514264337593543950335, 1)",
+    "[1, 2, 3 + 'x']",
+    "min(100, 200, ! 5) ; sum(1, 2)",
+    "mul(2, 3) + sum(4, 5) + max(6, 7) ; [8, 9]",
 ];
 
 /// programs used in the histories that contain a registration
